@@ -130,6 +130,11 @@ func routesFor(sc *Scn) string {
 		return `[{"match":[{"h_need":{"id":"one","k":1}}],"handle":[{"handler":"subroute","matching_timeout":` + T + `,"routes":[` + und + `]}]}]`
 	case "decide":
 		return `[{"match":[{"h_need":{"id":"abc","k":3,"pat":"abc"}}],"handle":[{"handler":"h_timed"}]}]`
+	case "fallthru":
+		// inside a subroute: a first route (no matcher) matches at once and consumes a byte, the
+		// second is undecided until the next bytes and then says no - the connection falls through
+		// to the handler behind the subroute, which the matching deadline must not limit either
+		return `[{"match":[{"h_need":{"id":"one","k":1}}],"handle":[{"handler":"subroute","matching_timeout":` + T + `,"routes":[{"handle":[{"handler":"h_consume","id":"c1","n":1}]},{"match":[{"h_need":{"id":"zz","k":2,"pat":"zz"}}],"handle":[{"handler":"h_consume","id":"never","n":1}]}]},{"handler":"h_timed"}]}]`
 	case "needbig":
 		return fmt.Sprintf(`[{"match":[{"h_need":{"id":"big","k":%d}}],"handle":[{"handler":"h_timed"}]}]`, limit+5000)
 	case "httpbig":
@@ -426,7 +431,7 @@ func check(x *explore.Exec, sc *Scn, r *result) {
 		if abortAt < 0 {
 			x.Fail("matching-never-ended", "matching did not end; %s", desc())
 		}
-	case "decide":
+	case "decide", "fallthru":
 		if !handlerStarted && !noTimeDev {
 			break // the client was delayed past the timeout
 		}
@@ -439,8 +444,8 @@ func check(x *explore.Exec, sc *Scn, r *result) {
 		}
 		if sc.Client == "late" && noTimeDev {
 			want := 6
-			if sc.Proto == "udp" {
-				want = 6
+			if sc.Routes == "fallthru" {
+				want = 5 // the first inner route consumed a byte
 			}
 			if handlerBytes != want || (sc.Proto == "tcp" && handlerErr != "EOF") {
 				x.Fail("handler-limited-by-deadline:"+sc.Proto, "the handler of the matched route read %d of %d bytes and ended with %q: the matching deadline still limits it; %s", handlerBytes, want, handlerErr, desc())
@@ -488,7 +493,7 @@ func scenarios(tier string, yield func(any) bool) {
 	for _, proto := range []string{"tcp", "udp"} {
 		for _, T := range timeouts {
 			for _, ph := range phases {
-				for _, routes := range []string{"undecided", "und2", "errset", "h2", "nonterm", "sub", "decide", "needbig", "eatbig", "httpbig"} {
+				for _, routes := range []string{"undecided", "und2", "errset", "h2", "nonterm", "sub", "decide", "needbig", "eatbig", "httpbig", "fallthru"} {
 					var clients []string
 					switch routes {
 					case "undecided":
@@ -501,7 +506,7 @@ func scenarios(tier string, yield func(any) bool) {
 						clients = []string{"h2split"}
 					case "nonterm", "sub":
 						clients = []string{"trickle"}
-					case "decide":
+					case "decide", "fallthru":
 						clients = []string{"late"}
 					case "needbig", "eatbig":
 						clients = []string{"flood"}
